@@ -5,11 +5,16 @@ import MosnVerif.Lemmas.ConfigPairs2
 # C19 — configuration survives dump and reload unchanged (property theorems only)
 
 The generic JSON codec of encoding/json is modelled by a field-table-driven encoder / decoder (`Shape`); the field tables
-are **regenerated** from pkg/config/v2 (`Gen.ConfigGraph`).  Theorems: the generic cycle `decode ∘ encode` is the
-normalisation `norm` and is stable from the first pass on — for *every* field table, and every struct of the
-regenerated graph without custom marshalers is such a table; the fixpoint law `M (U (M (U w))) = M (U w)` for the three
-representative custom pairs (FilterChain, Host / metadata, RetryPolicy / DurationConfig), whose hand-written shapes are
-checked against the regenerated tables; and `ParseDuration ∘ String = id` for the digit-level model of package time.
+are **regenerated** from pkg/config/v2 (`Gen.ConfigGraph`), and so is the classification of the custom (Un)MarshalJSON
+pairs from their method bodies (`Gen.ConfigPairs`: mirror wrappers = the generic codec of their config, metadata
+wrappers = shape `metaS`, single-field delegation = shape `boxed`).  Theorems: the cycle `decode ∘ encode` is the
+normalisation `norm` and is stable from the first pass on — for *every* shape, and every struct of the regenerated graph
+that unfolds (84 of 100: all but those containing Listener, FilterChain, the two directory pairs, or opaque external
+types) is such a shape, customs included and nested; the fixpoint law `M (U (M (U w))) = M (U w)` for the hand-written
+pairs FilterChain, Host, RetryPolicy / DurationConfig, every metadata wrapper (ClusterWeight, RouteAction, Router),
+CircuitBreakers, Listener, tied to the regenerated tables; `ParseDuration ∘ String = id` for the digit-level model of
+package time; and the directory ("dynamic") mode of ClusterManagerConfig / RouterConfiguration with the file-name
+operations regenerated from the two MarshalJSON bodies, closed over the regenerated Cluster / VirtualHost codecs.
 -/
 namespace MosnVerif.Props.C19
 open MosnVerif.Model MosnVerif.Model.ConfigCodec MosnVerif.Model.GoTypes
@@ -33,8 +38,11 @@ theorem generic_dump_stable (sh : Shape) (hk : keysOK sh = true) (w : Json) (v :
   have hw := dw sh hk w v h
   exact ⟨norm sh v, rt sh hk v hw, en sh v hw⟩
 
-/-- **the regenerated field tables are instances**: every struct of pkg/config/v2 without custom marshalers, embedded
-fields or external field types unfolds to a shape with distinct member keys — so `generic_roundtrip` applies to it. -/
+/-- **the regenerated field tables are instances**: every struct of pkg/config/v2 that unfolds — no embedded fields or
+opaque external field types; custom pairs only where the extractor recognised both method bodies as a mirror wrapper,
+a metadata wrapper (the metadata member must be an `omitempty` `*MetadataConfig`: part of `keysOK`) or a single-field
+delegation — unfolds to a shape with distinct member keys, so `generic_roundtrip` applies to it: among them `Cluster`
+and `VirtualHost` with everything nested in them. -/
 theorem regenerated_tables_generic :
     genericStructs.all (fun s => match shapeOf s with | some sh => keysOK sh | none => false) = true := by
   decide +kernel
@@ -225,7 +233,7 @@ theorem dynamic_roundtrip_partial {α : Type} (ops : List NameOp) (hops : opsOK 
     (hnames : ∀ c ∈ cs, free 0 (nameOf c)) :
     ∃ d' l, marshalDynamic ops enc nameOf clock d cs = some d' ∧
       unmarshalDynamic dcd Gen.ConfigDir.readExt d' = some l ∧ l.Perm (cs.map nrm) :=
-  dynamic_roundtrip_gen ops _ hops enc dcd nrm hcodec nameOf clock hclock d cs hnames
+  dynamic_roundtrip_gen ops _ hops enc dcd nrm nameOf clock hclock d cs (fun c _ => hcodec c) hnames
 
 /-- the **regenerated** operations of `ClusterManagerConfig.MarshalJSON` and `RouterConfiguration.MarshalJSON` are such
 operations: truncation to `MaxFilePath`, then the separator replacement, then the extension, then `uniqueFileName` -/
@@ -248,6 +256,47 @@ theorem dynamic_roundtrip_vhosts_partial {α : Type} (enc : α → Json) (dcd : 
     ∃ d' l, marshalDynamic Gen.ConfigDir.vhostNameOps enc nameOf clock d cs = some d' ∧
       unmarshalDynamic dcd Gen.ConfigDir.readExt d' = some l ∧ l.Perm (cs.map nrm) :=
   dynamic_roundtrip_partial _ regenerated_name_ops_ok.2 enc dcd nrm hcodec nameOf clock hclock d cs hnames
+
+/-- the directory round trip **closed over the regenerated item codec** (`s` = `Cluster` with the operations of
+`ClusterManagerConfig.MarshalJSON`, or `VirtualHost` with those of `RouterConfiguration.MarshalJSON`): the shape of `s`
+unfolds from the regenerated field tables *including* its custom members (HealthCheck, KeepAlive, Host, CircuitBreakers,
+TLS / SDS; Router, RouteAction, ClusterWeight, RetryPolicy — classified from their method bodies, `Gen.ConfigPairs`); for
+every directory, clock and list of values of that shape, the dump succeeds, the loader returns the items as one cycle
+normalises them, and these re-encode to the very same documents — a second dump writes the same set of documents.
+PARTIAL as above (NUL-free names). -/
+theorem dynamic_roundtrip_closed_partial (s : String) (ops : List NameOp) (sh : Shape) (h : shapeOf s = some sh)
+    (hreg : (match shapeOf s with | some sh => keysOK sh | none => false) = true)
+    (hops : opsOK ops Gen.ConfigDir.readExt = true) (clock : Nat → Bytes) (hclock : ClockOK clock) (d : Dir)
+    (cs : List CVal) (hwt : ∀ c ∈ cs, wt sh c = true) (hnames : ∀ c ∈ cs, free 0 (itemName sh c)) :
+    ∃ d' l, marshalDynamic ops (encode sh) (itemName sh) clock d cs = some d' ∧
+      unmarshalDynamic (decode sh) Gen.ConfigDir.readExt d' = some l ∧ l.Perm (cs.map (norm sh)) ∧
+      (l.map (encode sh)).Perm (cs.map (encode sh)) := by
+  rw [h] at hreg
+  obtain ⟨d', l, h1, h2, h3⟩ := dynamic_roundtrip_gen ops _ hops (encode sh) (decode sh) (norm sh) (itemName sh) clock
+    hclock d cs (fun c hc => rt sh hreg c (hwt c hc)) hnames
+  refine ⟨d', l, h1, h2, h3, ?_⟩
+  have h4 := h3.map (encode sh)
+  refine h4.trans ?_
+  rw [List.map_map]
+  have : ∀ c ∈ cs, (encode sh ∘ norm sh) c = encode sh c := fun c hc => en sh c (hwt c hc)
+  rw [List.map_congr_left this]
+
+/-- clusters (`clusters_configs`) and virtual hosts (`router_configs`) with their regenerated shapes -/
+theorem dynamic_roundtrip_clusters_closed_partial (sh : Shape) (h : shapeOf "Cluster" = some sh) (clock : Nat → Bytes)
+    (hclock : ClockOK clock) (d : Dir) (cs : List CVal) (hwt : ∀ c ∈ cs, wt sh c = true)
+    (hnames : ∀ c ∈ cs, free 0 (itemName sh c)) :
+    ∃ d' l, marshalDynamic Gen.ConfigDir.clusterNameOps (encode sh) (itemName sh) clock d cs = some d' ∧
+      unmarshalDynamic (decode sh) Gen.ConfigDir.readExt d' = some l ∧ l.Perm (cs.map (norm sh)) ∧
+      (l.map (encode sh)).Perm (cs.map (encode sh)) :=
+  dynamic_roundtrip_closed_partial "Cluster" _ sh h (by decide +kernel) regenerated_name_ops_ok.1 clock hclock d cs hwt hnames
+
+theorem dynamic_roundtrip_vhosts_closed_partial (sh : Shape) (h : shapeOf "VirtualHost" = some sh) (clock : Nat → Bytes)
+    (hclock : ClockOK clock) (d : Dir) (cs : List CVal) (hwt : ∀ c ∈ cs, wt sh c = true)
+    (hnames : ∀ c ∈ cs, free 0 (itemName sh c)) :
+    ∃ d' l, marshalDynamic Gen.ConfigDir.vhostNameOps (encode sh) (itemName sh) clock d cs = some d' ∧
+      unmarshalDynamic (decode sh) Gen.ConfigDir.readExt d' = some l ∧ l.Perm (cs.map (norm sh)) ∧
+      (l.map (encode sh)).Perm (cs.map (encode sh)) :=
+  dynamic_roundtrip_closed_partial "VirtualHost" _ sh h (by decide +kernel) regenerated_name_ops_ok.2 clock hclock d cs hwt hnames
 
 /-- **dynamic_files**: what the dump leaves — one file per item, pairwise distinct names, each with the extension the
 loader reads; nothing else survives, whatever the directory held -/
@@ -303,6 +352,37 @@ example : opsOK [.orStamp, .replaceAll 47 [95], .append [46, 106, 115, 111, 110]
       (List.replicate 124 97)) = [46, 106, 115, 111] := by decide +kernel
 
 end Directory
+
+/-- the regenerated classification of the custom pairs, and what the big structs unfold to: `Router` is a metadata
+wrapper at member 4 of `RouterConfig`, whose `route` member is a metadata wrapper at member 6 of `RouterActionConfig`;
+`Cluster`, `VirtualHost`, `RouterConfigurationConfig`… unfold; `Listener`, `FilterChain` and the directory pairs do not -/
+example : (kindOf "ClusterWeight" == .metadata "ClusterWeightConfig" "metadata_match" &&
+    kindOf "RouteAction" == .metadata "RouterActionConfig" "metadata_match" &&
+    kindOf "Router" == .metadata "RouterConfig" "metadata" && kindOf "Host" == .metadata "HostConfig" "metadata" &&
+    kindOf "RetryPolicy" == .mirror "RetryPolicyConfig" && kindOf "HealthCheck" == .mirror "HealthCheckConfig" &&
+    kindOf "KeepAlive" == .mirror "KeepAliveConfig" && kindOf "SecretConfigWrapper" == .mirror "SecretConfigWrapperConfig" &&
+    kindOf "CircuitBreakers" == .boxed "Thresholds" && kindOf "FilterChain" == .other && kindOf "Listener" == .other &&
+    kindOf "ClusterManagerConfig" == .other && kindOf "RouterConfiguration" == .other) = true := by decide +kernel
+example : (match shapeOf "Router" with
+    | some (.metaS 4 fs) => (match fs.get? 1 with | some ("route", true, .metaS 6 _) => true | _ => false)
+    | _ => false) = true := by decide +kernel
+example : ((shapeOf "Cluster").isSome && (shapeOf "VirtualHost").isSome && (shapeOf "TLSConfig").isSome &&
+    (shapeOf "Listener").isNone && (shapeOf "FilterChain").isNone && (shapeOf "ClusterManagerConfig").isNone &&
+    (shapeOf "RouterConfiguration").isNone && (shapeOf "MOSNConfig").isNone) = true := by decide +kernel
+/-- nested customs in one cycle: a virtual host whose route has a weighted cluster with non-string metadata and a retry
+policy with a `90s` timeout — the metadata value is dropped, both durations are rewritten, absent timeouts appear -/
+example : (match shapeOf "VirtualHost" with
+    | some sh =>
+      (match decode sh (.obj [("name", .str "v"), ("routers", .arr [.obj [("route", .obj [
+          ("weighted_clusters", .arr [.obj [("cluster", .obj [("name", .str "c"), ("metadata_match", .obj [("filter_metadata",
+            .obj [("mosn.lb", .obj [("z", .str "a"), ("n", .num "1")])])])])]]),
+          ("retry_policy", .obj [("retry_timeout", .str "90s")])])]])]) with
+      | some v => encode sh v == .obj [("name", .str "v"), ("routers", .arr [.obj [("match", .obj []), ("route", .obj [
+          ("weighted_clusters", .arr [.obj [("cluster", .obj [("name", .str "c"), ("metadata_match", .obj [("filter_metadata",
+            .obj [("mosn.lb", .obj [("z", .str "a")])])])])]]),
+          ("timeout", .str "0s"), ("retry_policy", .obj [("retry_timeout", .str "1m30s")])])]])]
+      | none => false)
+    | none => false) = true := by decide +kernel
 
 /-! ## the hand-written shapes of the custom pairs against the regenerated tables -/
 
